@@ -956,6 +956,8 @@ def run(ctx):
     from .c16 import r16i
     r16i(ctx, children=False)
     ctx.rules["R16i"].floor = 1
+    from .round12 import r09n
+    r09n(ctx)
 
 
 from ..selftest import Seed, unparse_seed  # noqa: E402
